@@ -204,8 +204,10 @@ def unwrap1 : RefVal → RefVal
 
 /-- `cls(typ, np.array(value))` for a non-list, non-None value. -/
 def leafRef (typ : Ty) : RefVal → Except Exc PropValue
-  | .arr dt sh pid => .ok (PropValue.new typ (.arr dt sh pid))
-  | .scalar dt pid => .ok (PropValue.new typ (.arr dt [] pid))
+  -- an object array ALL of whose elements are `str` is normalised to a string array (fix 05c97c9: the
+  -- reference evaluator returns StringConcat / StringSplit results that way); other object arrays stay
+  | .arr dt sh pid => .ok (PropValue.new typ (.arr (if dt == .object then .str else dt) sh pid))
+  | .scalar dt pid => .ok (PropValue.new typ (.arr (if dt == .object then .str else dt) [] pid))
   | .opaque pid => .ok (PropValue.new typ (.arr .objmixed [] pid))
   | .ragged => .error .valueError
   | .none => .ok (PropValue.new typ .none)
@@ -304,9 +306,35 @@ structure OutVar where
   type : Option Ty
   value : Option PropValue
 
+/-- The facts about a node that make its `propagate_values` return early WITHOUT consulting the backend
+    (each observed separately on the real node and combined here, in the model):
+    * `sampling` - a standard operator listed in `_standard._NON_DETERMINISTIC_OPS` (RandomUniform,
+      Bernoulli, Dropout ...): `StandardNode.propagate_values_onnx` returns `{}` (fix 616ba26);
+    * `subgraph` - a standard operator carrying a subgraph attribute (If / Loop / Scan / SequenceMap);
+    * `inlineControlFlow` - an `_Inline` node whose inlined graph has a node with a GRAPH / GRAPHS
+      attribute: `_Inline.propagate_values` returns `{}` (fix 341024b). -/
+structure Traits where
+  sampling : Bool
+  subgraph : Bool
+  inlineControlFlow : Bool
+deriving Repr, DecidableEq
+
+def Traits.plain : Traits := ⟨false, false, false⟩
+
+/-- The node skips value propagation whatever its inputs and the backend are. -/
+def Traits.skips (t : Traits) : Bool := t.sampling || t.subgraph || t.inlineControlFlow
+
+/-- **Does a node of these traits propagate at all under this backend setting?** (Constant / initializer
+    nodes are not subject to it: they propagate their embedded array under every setting.) -/
+def propagates (sel : BackendSel) (t : Traits) : Bool :=
+  match sel with
+  | .none => false
+  | _ => !t.skips
+
 structure NodeCtx where
   inputs : List InVar
   outputs : List OutVar
+  /-- `Traits.skips` of the node (historically only "has a subgraph"). -/
   hasSubgraph : Bool
 
 /-- `scope.var[str(name)]` → (`_which_output`, `type`); `none` = KeyError. Inputs are named first. -/
@@ -380,6 +408,7 @@ def propagateInline (v : Variant) (sel : BackendSel) (ctx : NodeCtx) (gnames : L
   if ctx.inputs.any (fun i => i.type.isNone || !i.hasValue) then .ok []
   else if v.inlineNoneGuard && sel == .none then .ok []
   else if sel == .none then .error .runtimeError      -- `get_backend_calls()` under NONE
+  else if ctx.hasSubgraph then .ok []                 -- the inlined graph contains control flow (341024b)
   else
     match runCatch b with
     | .error e => .error e
